@@ -60,13 +60,16 @@ type Conf struct {
 }
 
 type Op struct {
-	Kind  string `json:"kind"`                   // discover | request | restart | age
-	MAC   string `json:"mac,omitempty"`          // hex chaddr (any length 0..16)
-	Host  string `json:"host,omitempty"`         // hex of option 12; "" = absent
-	Lease string `json:"lease,omitempty"`        // restart: lease time argument
-	Shift int    `json:"range_shift,omitempty"`  // restart with the configured range moved by this many addresses
-	CID   string `json:"client_id,omitempty"`    // hex of option 61; "" = absent
-	RO    bool   `json:"read_only_db,omitempty"` // restart with the lease database opened read-only (fault: it cannot be written any more)
+	Kind  string `json:"kind"`                        // discover | request | restart | age
+	MAC   string `json:"mac,omitempty"`               // hex chaddr (any length 0..16)
+	Host  string `json:"host,omitempty"`              // hex of option 12; "" = absent
+	Lease string `json:"lease,omitempty"`             // restart: lease time argument
+	Shift int    `json:"range_shift,omitempty"`       // restart with the configured range moved by this many addresses
+	CID   string `json:"client_id,omitempty"`         // hex of option 61; "" = absent
+	Dur   string `json:"elapsed,omitempty"`           // age: how much time passes (default 2h1s)
+	XCode int    `json:"extra_option,omitempty"`      // one more option (code) ...
+	XData string `json:"extra_option_data,omitempty"` // ... with this payload (hex)
+	RO    bool   `json:"read_only_db,omitempty"`      // restart with the lease database opened read-only (fault: it cannot be written any more)
 }
 
 type Case struct {
@@ -246,6 +249,10 @@ func buildReq(op Op) []byte {
 		c, _ := hex.DecodeString(op.CID)
 		p.Opts = append(p.Opts, pkt.Opt4{Code: 61, Data: c})
 	}
+	if op.XCode != 0 {
+		d, _ := hex.DecodeString(op.XData)
+		p.Opts = append(p.Opts, pkt.Opt4{Code: byte(op.XCode), Data: d})
+	}
 	return p.Bytes()
 }
 
@@ -267,12 +274,20 @@ func (s *Sys) Apply(op Op, live bool) (obs string) {
 	}()
 	if op.Kind == "age" {
 		// one hour and one second more than the longest lease time of the alphabet
-		const d = 2*time.Hour + time.Second
+		d := 2*time.Hour + time.Second
+		if op.Dur != "" {
+			var err error
+			if d, err = time.ParseDuration(op.Dur); err != nil {
+				panic(err)
+			}
+		}
 		if err := s.inst.VerifAge(d); err != nil {
 			panic(err)
 		}
 		for m := range s.first {
-			s.aged[m] = true
+			if op.Dur == "" {
+				s.aged[m] = true
+			}
 			s.prom[m] = s.prom[m].Add(-d)
 		}
 		return "aged"
@@ -609,7 +624,57 @@ func run(r *ev.Run, id string) {
 
 var runSched = c16.SchedPart("C02", 4)
 
+// irrelevantOptions: the binding is a function of the hardware address. For every option
+// code and three payload shapes, two clients ask with and without that option in both orders
+// on a fresh 2-address range; all oracles of Apply stay on (same address for the same
+// hardware address, different addresses for different ones, database restorable).
+func irrelevantOptions(r *ev.Run, id string) {
+	conf := Conf{Start: "10.0.0.10", End: "10.0.0.11", Lease: "60s", NoShift: true, MACs: []string{"020000000a01", "020000000b02"}}
+	a, b := conf.MACs[0], conf.MACs[1]
+	for _, x := range pkt.Extra4(12) {
+		xd := hex.EncodeToString(x.Data)
+		for _, hist := range [][]Op{
+			{{Kind: "discover", MAC: a, XCode: int(x.Code), XData: xd}, {Kind: "request", MAC: a}, {Kind: "discover", MAC: b}, {Kind: "request", MAC: b, XCode: int(x.Code), XData: xd}, {Kind: "discover", MAC: a}},
+			{{Kind: "discover", MAC: a}, {Kind: "discover", MAC: b, XCode: int(x.Code), XData: xd}, {Kind: "request", MAC: a, XCode: int(x.Code), XData: xd}, {Kind: "restart", Lease: "60s"}, {Kind: "request", MAC: b}},
+		} {
+			s := NewSys(r, id, conf, id == "C03")
+			for _, op := range hist {
+				s.Apply(op, true)
+				if s.Terminal() {
+					break
+				}
+			}
+			s.Close()
+		}
+		r.Add("irrelevant_option_histories", 2)
+	}
+}
+
+// gaps: the time between two requests of one client, from a second to beyond the lease time.
+// After every request the database image must promise at least what the reply promised.
+func gaps(r *ev.Run, id string) {
+	a, b := "020000000a01", "020000000b02"
+	for _, lease := range []string{"60s", "1h", "10s"} {
+		conf := Conf{Start: "10.0.0.10", End: "10.0.0.12", Lease: lease, NoShift: true, MACs: []string{a, b}}
+		for _, gap := range []string{"1s", "2s", "3s", "5s", "9s", "10s", "11s", "30s", "59s", "61s", "10m", "59m", "61m"} {
+			for _, kinds := range [][2]string{{"discover", "request"}, {"request", "request"}, {"discover", "discover"}} {
+				s := NewSys(r, id, conf, id == "C03")
+				for _, op := range []Op{{Kind: kinds[0], MAC: a}, {Kind: "discover", MAC: b}, {Kind: "age", Dur: gap}, {Kind: kinds[1], MAC: a}, {Kind: "age", Dur: gap}, {Kind: kinds[1], MAC: a}, {Kind: "restart", Lease: lease}, {Kind: "request", MAC: b}} {
+					s.Apply(op, true)
+					if s.Terminal() {
+						break
+					}
+				}
+				s.Close()
+				r.Add("gap_histories", 1)
+			}
+		}
+	}
+}
+
 func sweeps(r *ev.Run, id string) {
+	gaps(r, id)
+	irrelevantOptions(r, id)
 	thorough := !r.Quick()
 	// range sizes, filled to exhaustion then everybody asks again, then restart
 	sizes := []int{1, 2, 63, 64, 65}
